@@ -35,16 +35,7 @@ Definition g_user_in_channel (u : user) (name : str) : bool := user_in_channel u
 Definition g_channel_user_in (c : channel) (nick : str) : bool := channel_user_in c nick. (* Channel.UserIn *)
 Definition g_channel_len (c : channel) : nat := length (c_users c).              (* Channel.Len *)
 
-(* CModes.HasMode / Get take the mode as a string and compare it with string(name): for an
-   ASCII name that is the one-byte string *)
-Definition g_has_mode (c : channel) (mode : str) : bool :=
-  match mode with
-  | [x] => (x <? 128) && has_mode (c_modes c) x
-  | _ => false
-  end.
-Definition g_mode_get (c : channel) (mode : str) : option str :=
-  match mode with
-  | [x] => if x <? 128 then mode_get (cm_modes (c_modes c)) x else None
-  | _ => None
-  end.
+(* CModes.HasMode / Get take the mode as a string and compare it with string(name) *)
+Definition g_has_mode (c : channel) (mode : str) : bool := has_mode_str (c_modes c) mode.
+Definition g_mode_get (c : channel) (mode : str) : option str := mode_get_str (cm_modes (c_modes c)) mode.
 Definition g_modes_string (c : channel) : str := modes_string (c_modes c).       (* CModes.String *)
